@@ -276,10 +276,10 @@ def run_small(case):
 
 
 SUBCHECKS = [
-    Sub('C16.logic_int_model', run_logic, strategy=logic_case, ambient=('bytealigned',), examples={'quick': 16000, 'thorough': 250000}),
-    Sub('C16.laws', run_laws, strategy=laws_case, ambient=('bytealigned',), examples={'quick': 4000, 'thorough': 60000}),
-    Sub('C16.shift', run_shift, strategy=shift_case, ambient=('bytealigned',), examples={'quick': 10000, 'thorough': 150000}),
-    Sub('C16.inplace', run_inplace, strategy=inplace_case, ambient=('bytealigned',), examples={'quick': 8000, 'thorough': 100000}),
+    Sub('C16.logic_int_model', run_logic, strategy=logic_case, ambient=('bytealigned', 'lsb0'), examples={'quick': 16000, 'thorough': 250000}),
+    Sub('C16.laws', run_laws, strategy=laws_case, ambient=('bytealigned', 'lsb0'), examples={'quick': 4000, 'thorough': 60000}),
+    Sub('C16.shift', run_shift, strategy=shift_case, ambient=('bytealigned', 'lsb0'), examples={'quick': 10000, 'thorough': 150000}),
+    Sub('C16.inplace', run_inplace, strategy=inplace_case, ambient=('bytealigned', 'lsb0'), examples={'quick': 8000, 'thorough': 100000}),
     Sub('C16.small_world', run_small, enum=small_world,
         enum_exhaustive_note='all pairs of contents of equal length <= 4 (quick) / 6 (thorough) x &,|,^ x 4 classes; ~; all shift counts -1..n+2'),
 ]
